@@ -123,8 +123,16 @@ pub open spec fn sm_valid(v: SendMessages) -> bool {
     id_valid(v.stream_id) && id_valid(v.topic_id) && part_valid(v.partitioning) && msgs_wf(v.messages@) && sm_sendable(v) && sm_frame_len(v) <= isize::MAX
 }
 // the decoded request c is the request v: identifiers and partitioning equal, the messages one by one in the same order
+// (a message: the id unless it was 0 - then the server generates one -, the length field, the payload, the headers compared AS MAPS:
+// no headers and an empty map are the same content, the iteration order of the map object is not part of the value)
+pub open spec fn msg_same(c: Message, v: Message) -> bool {
+    (v.id != 0 ==> c.id == v.id) && c.length == v.length && c.payload@ == v.payload@ && hdr_content(c.headers) == hdr_content(v.headers)
+}
+pub open spec fn msgs_same(cs: Seq<Message>, vs: Seq<Message>) -> bool {
+    cs.len() == vs.len() && forall|i: int| 0 <= i < cs.len() ==> msg_same(#[trigger] cs[i], vs[i])
+}
 pub open spec fn sm_same(c: SendMessages, v: SendMessages) -> bool {
-    id_eq(c.stream_id, v.stream_id) && id_eq(c.topic_id, v.topic_id) && part_eq(c.partitioning, v.partitioning) && msgs_match(c.messages@, msgs_w(v.messages@))
+    id_eq(c.stream_id, v.stream_id) && id_eq(c.topic_id, v.topic_id) && part_eq(c.partitioning, v.partitioning) && msgs_same(c.messages@, v.messages@)
 }
 
 // ---- lemmas about the SPECIFICATION -----------------------------------------------------------------------------------------------------
@@ -446,3 +454,273 @@ pub proof fn lemma_msgs_w_valid(s: Seq<Message>)
         }
     }
 }
+// ---- the decoder's walk over the message list ------------------------------------------------------------------------------------------------
+// the cursor stands on the boundary before message k: the first k messages lie before it, and - unless it is the end of the list -
+// message k sits at the cursor, followed by the rest of the list
+pub open spec fn send_cursor(tail: Seq<u8>, ws: Seq<MsgW>, k: int, pos: int) -> bool {
+    &&& tail == enc_seq(ws) && msgs_valid(ws)
+    &&& list_progress(ws, k, pos, ws.take(k))
+    &&& pos <= tail.len()
+    &&& pos < tail.len() ==> (k < ws.len() && msgw_valid(ws[k]) && pos + ws[k].enc().len() <= tail.len()
+            && tail.subrange(pos, tail.len() as int) == ws[k].enc() + tail.subrange(pos + ws[k].enc().len(), tail.len() as int))
+}
+pub proof fn lemma_send_cursor(tail: Seq<u8>, ws: Seq<MsgW>, k: int, pos: int)
+    requires msgs_valid(ws), tail == enc_seq(ws), list_progress(ws, k, pos, ws.take(k)),
+    ensures send_cursor(tail, ws, k, pos),
+{
+    lemma_enc_seq_take(ws, k);
+    if pos < tail.len() {
+        lemma_list_step(tail, ws, k, pos, ws.take(k));
+        lemma_at_pos_split(tail, pos, ws[k].enc());
+    }
+}
+pub proof fn lemma_send_start(tail: Seq<u8>, ws: Seq<MsgW>)
+    requires msgs_valid(ws), tail == enc_seq(ws),
+    ensures send_cursor(tail, ws, 0, 0), msgs_match(Seq::<Message>::empty(), ws.take(0)),
+{
+    lemma_list_start(ws);
+    assert(ws.take(0) =~= Seq::<MsgW>::empty());
+    lemma_send_cursor(tail, ws, 0, 0);
+}
+// message k was read at `pos` as m: the cursor advanced by the size of m stands on the boundary before message k + 1
+pub proof fn lemma_send_step(tail: Seq<u8>, ws: Seq<MsgW>, k: int, pos: int, ms: Seq<Message>, m: Message)
+    requires
+        send_cursor(tail, ws, k, pos), pos < tail.len(),
+        msgs_match(ms, ws.take(k)), k < ws.len() ==> msg_matches(m, ws[k]),
+    ensures
+        send_cursor(tail, ws, k + 1, pos + msg_w(m).enc().len()),
+        msgs_match(ms.push(m), ws.take(k + 1)),
+{
+    lemma_list_step(tail, ws, k, pos, ws.take(k));
+    lemma_match_same_len(m, ws[k]);
+    assert(ws.take(k).push(ws[k]) =~= ws.take(k + 1));
+    let ms2 = ms.push(m);
+    let w2 = ws.take(k + 1);
+    assert forall|i: int| 0 <= i < ms2.len() implies msg_matches(#[trigger] ms2[i], w2[i]) by {
+        if i < k { assert(msg_matches(ms[i], ws.take(k)[i])); }
+    }
+    lemma_send_cursor(tail, ws, k + 1, pos + msg_w(m).enc().len());
+}
+// the cursor reached the end of the list: every message was read
+pub proof fn lemma_send_done(tail: Seq<u8>, ws: Seq<MsgW>, k: int, pos: int)
+    requires send_cursor(tail, ws, k, pos), pos >= tail.len(),
+    ensures k == ws.len(), pos == tail.len(), ws.take(k) == ws,
+{
+    lemma_msgs_nonempty(ws);
+    lemma_list_done(tail, ws, k, pos, ws.take(k));
+}
+// a decoded list that matches valid wire messages is a list of well-formed messages with payload, and encodes to the same length
+pub proof fn lemma_matched_list(ms: Seq<Message>, ws: Seq<MsgW>)
+    requires msgs_valid(ws), msgs_match(ms, ws), enc_seq(ws).len() <= isize::MAX,
+    ensures
+        msgs_wf(ms), forall|i: int| 0 <= i < ms.len() ==> (#[trigger] ms[i]).payload@.len() >= 1,
+        enc_seq(msgs_w(ms)).len() == enc_seq(ws).len(),
+{
+    let mw = msgs_w(ms);
+    assert forall|i: int| 0 <= i < ms.len() implies msg_wf(#[trigger] ms[i]) && ms[i].payload@.len() >= 1 && mw[i].enc().len() == ws[i].enc().len() by {
+        assert(msgw_valid(ws[i]));
+        assert(msg_matches(ms[i], ws[i]));
+        lemma_match_same_len(ms[i], ws[i]);
+        lemma_enc_seq_take(ws, i);
+        lemma_enc_seq_take(ws, i + 1);
+        assert(ws[i].enc().len() <= enc_seq(ws).len());
+    }
+    assert forall|i: int| 0 <= i < mw.len() implies (#[trigger] mw[i]).enc().len() == ws[i].enc().len() by { assert(msg_wf(ms[i])); }
+    lemma_enc_seq_same_len(mw, ws);
+}
+// a message decoded from what the well-formed message v put on the wire is v
+pub proof fn lemma_matches_same(cs: Seq<Message>, vs: Seq<Message>)
+    requires msgs_wf(vs), msgs_match(cs, msgs_w(vs)),
+    ensures msgs_same(cs, vs),
+{
+    assert forall|i: int| 0 <= i < cs.len() implies msg_same(#[trigger] cs[i], vs[i]) by {
+        let c = cs[i];
+        let v = vs[i];
+        assert(msg_matches(c, msgs_w(vs)[i]));
+        assert(msg_wf(v));
+        match v.headers {
+            None => {
+                let e0 = Seq::<HdrEntry>::empty();
+                assert(keys_distinct(e0) && entries_valid(e0));
+                assert(enc_entries(e0) =~= Seq::<u8>::empty());
+                assert(hdr_content(c.headers) == map_of(e0));
+            },
+            Some(h) => {
+                lemma_hdr_bytes_block(h);
+                let es = es_of(h);
+                assert(keys_distinct(es) && entries_valid(es) && hdr_bytes(h) == enc_entries(es));
+                assert(hdr_content(c.headers) == map_of(es));
+            },
+        }
+    }
+}
+
+// ---- the server's binary handler: stand-ins --------------------------------------------------------------------------------------------------
+// A-std: derived Clone copies the value
+impl Clone for Identifier { #[verifier::external_body] fn clone(&self) -> (r: Self) ensures r == *self { unimplemented!() } }
+impl Clone for Partitioning { #[verifier::external_body] fn clone(&self) -> (r: Self) ensures r == *self { unimplemented!() } }
+#[verifier::external_body]
+pub struct Session { p: u8 }
+pub enum Confirmation { Wait, NoWait }
+// the response channel of the connection: what was sent is not modelled here (unit frame_gate), only THAT the empty OK response is
+// sent through it
+pub struct SenderKind { pub oks: Ghost<nat> }
+impl SenderKind {
+    #[verifier::external_body]
+    pub fn send_empty_ok_response(&mut self) -> (r: Result<(), IggyError>)
+        ensures final(self).oks@ == old(self).oks@ + 1,
+    { unimplemented!() }
+}
+// one invocation of System::append_messages (server/src/streaming/systems/messages.rs; under contract in units authn_gate /
+// encryption / topic_send): the arguments it was given, and whether it succeeded
+pub ghost struct AppendCall { pub stream_id: Identifier, pub topic_id: Identifier, pub partitioning: Partitioning, pub messages: Seq<Message>, pub confirmation: Option<Confirmation>, pub ok: bool }
+pub struct System { pub calls: Ghost<Seq<AppendCall>> }
+impl System {
+    #[verifier::external_body]
+    pub fn append_messages(&mut self, session: &Session, stream_id: Identifier, topic_id: Identifier, partitioning: Partitioning, messages: Vec<Message>, confirmation: Option<Confirmation>) -> (r: Result<(), IggyError>)
+        ensures final(self).calls@ == old(self).calls@.push(AppendCall { stream_id, topic_id, partitioning, messages: messages@, confirmation, ok: r is Ok }),
+    { unimplemented!() }
+}
+
+// ---- the limits `validate` enforces, and the longest frame a validated request can have --------------------------------------------------
+// total payload bytes of a batch; total header VALUE bytes of a batch (what validate adds up against MAX_PAYLOAD_SIZE / MAX_HEADERS_SIZE)
+pub open spec fn payload_total(s: Seq<Message>) -> int
+    decreases s.len(),
+{
+    if s.len() == 0 { 0 } else { payload_total(s.drop_last()) + s.last().payload@.len() }
+}
+pub open spec fn values_total(es: Seq<HdrEntry>) -> int
+    decreases es.len(),
+{
+    if es.len() == 0 { 0 } else { values_total(es.drop_last()) + es.last().value.len() }
+}
+pub open spec fn msg_values(m: Message) -> int { match m.headers { None => 0, Some(h) => values_total(es_of(h)) } }
+pub open spec fn hv_total(s: Seq<Message>) -> int
+    decreases s.len(),
+{
+    if s.len() == 0 { 0 } else { hv_total(s.drop_last()) + msg_values(s.last()) }
+}
+pub proof fn lemma_totals_step(s: Seq<Message>, i: int)
+    requires 0 <= i < s.len(),
+    ensures
+        payload_total(s.take(i + 1)) == payload_total(s.take(i)) + s[i].payload@.len(),
+        hv_total(s.take(i + 1)) == hv_total(s.take(i)) + msg_values(s[i]),
+        payload_total(s.take(0)) == 0 && hv_total(s.take(0)) == 0,
+{
+    assert(s.take(i + 1).drop_last() =~= s.take(i));
+    assert(s.take(0) =~= Seq::<Message>::empty());
+}
+pub proof fn lemma_values_step(es: Seq<HdrEntry>, j: int)
+    requires 0 <= j < es.len(),
+    ensures values_total(es.take(j + 1)) == values_total(es.take(j)) + es[j].value.len(), values_total(es.take(0)) == 0,
+{
+    assert(es.take(j + 1).drop_last() =~= es.take(j));
+    assert(es.take(0) =~= Seq::<HdrEntry>::empty());
+}
+// a header block is at most 265 times as long as its values (an entry: 9 bytes of framing, a key of at most 255 bytes, a value of >= 1)
+pub proof fn lemma_entries_len_bound(es: Seq<HdrEntry>)
+    requires entries_valid(es),
+    ensures enc_entries(es).len() <= 265 * values_total(es), values_total(es) >= 0,
+    decreases es.len(),
+{
+    if es.len() > 0 {
+        let p = es.drop_last();
+        assert(entries_valid(p)) by { assert forall|i: int| 0 <= i < p.len() implies entry_valid(#[trigger] p[i]) by { assert(entry_valid(es[i])); } }
+        lemma_entries_len_bound(p);
+        assert(entry_valid(es[es.len() - 1]));
+        lemma_entry_len(es.last());
+    }
+}
+// a batch of n well-formed messages with payload: n <= payload bytes, and the list encoding is bounded by framing + headers + payloads
+pub proof fn lemma_msgs_len_bound(s: Seq<Message>)
+    requires msgs_wf(s), forall|i: int| 0 <= i < s.len() ==> (#[trigger] s[i]).payload@.len() >= 1,
+    ensures
+        s.len() <= payload_total(s), hv_total(s) >= 0,
+        enc_seq(msgs_w(s)).len() <= 24 * payload_total(s) + 265 * hv_total(s) + payload_total(s),
+    decreases s.len(),
+{
+    if s.len() > 0 {
+        let p = s.drop_last();
+        let m = s.last();
+        assert(msgs_wf(p)) by { assert forall|i: int| 0 <= i < p.len() implies msg_wf(#[trigger] p[i]) by { assert(msg_wf(s[i])); } }
+        assert forall|i: int| 0 <= i < p.len() implies (#[trigger] p[i]).payload@.len() >= 1 by { assert(s[i].payload@.len() >= 1); }
+        lemma_msgs_len_bound(p);
+        assert(msgs_w(s).drop_last() =~= msgs_w(p));
+        assert(msgs_w(s).last() == msg_w(m));
+        assert(msg_wf(s[s.len() - 1]) && s[s.len() - 1].payload@.len() >= 1);
+        lemma_msg_len(msg_w(m));
+        match m.headers {
+            None => {},
+            Some(h) => { lemma_hdr_bytes_block(h); lemma_entries_len_bound(es_of(h)); },
+        }
+    }
+}
+// the longest request frame (length prefix and command code included) that `validate` lets through
+pub open spec fn max_valid_frame() -> int { 8 + 3 * 257 + 24 * (MAX_PAYLOAD_SIZE as int) + 265 * (MAX_HEADERS_SIZE as int) + MAX_PAYLOAD_SIZE as int }
+pub open spec fn sm_within_limits(v: SendMessages) -> bool { payload_total(v.messages@) <= MAX_PAYLOAD_SIZE && hv_total(v.messages@) <= MAX_HEADERS_SIZE }
+pub proof fn lemma_valid_frame_bound(v: SendMessages)
+    requires sm_wf(v), sm_sendable(v), sm_within_limits(v),
+    ensures 8 + sm_frame_len(v) <= max_valid_frame(),
+{
+    lemma_msgs_len_bound(v.messages@);
+    let t3 = enc_seq(msgs_w(v.messages@));
+    let t2 = enc_partitioning(v.partitioning) + t3;
+    let t1 = enc_identifier(v.topic_id) + t2;
+    lemma_identifier_layout(v.stream_id, t1);
+    lemma_identifier_layout(v.topic_id, t2);
+    lemma_partitioning_layout(v.partitioning, t3);
+    assert(24 * payload_total(v.messages@) <= 24 * (MAX_PAYLOAD_SIZE as int)) by (nonlinear_arith) requires payload_total(v.messages@) <= MAX_PAYLOAD_SIZE;
+    assert(265 * hv_total(v.messages@) <= 265 * (MAX_HEADERS_SIZE as int)) by (nonlinear_arith) requires hv_total(v.messages@) <= MAX_HEADERS_SIZE;
+}
+
+// ---- the QUIC listener's read of one request (server/src/quic/listener.rs handle_stream, first part) ----------------------------------
+// quinn and anyhow stand-ins. One request = one bidirectional stream: the client writes the frame and finishes its side.
+//   pending()    ALL bytes the peer put on this stream before finishing it
+//   read_fails() the connection is lost / the peer reset the stream before everything arrived
+// quinn RecvStream::read_to_end(size_limit) (TRUE contract, quinn 0.11 recv_stream.rs): the whole content of the stream up to its end;
+// fails with ReadToEndError::TooLong when the stream carries more than `size_limit` bytes (all data is discarded), or with a read error.
+#[verifier::external_body]
+pub struct SendStream { _p: u8 }
+#[verifier::external_body]
+pub struct RecvStream { _p: u8 }
+pub struct ReadToEndError { pub p: u8 }
+impl RecvStream {
+    pub uninterp spec fn pending(&self) -> Seq<u8>;
+    pub uninterp spec fn read_fails(&self) -> bool;
+    #[verifier::external_body]
+    pub fn read_to_end(&mut self, size_limit: usize) -> (r: Result<Vec<u8>, ReadToEndError>)
+        ensures
+            r matches Ok(v) ==> v@ == old(self).pending() && v@.len() <= size_limit,
+            (!old(self).read_fails() && old(self).pending().len() <= size_limit) ==> r is Ok,
+    { unimplemented!() }
+}
+pub struct AnyhowError { pub p: u8 }
+impl AnyhowError {
+    #[verifier::external_body]
+    pub fn msg() -> (r: AnyhowError) { unimplemented!() }
+}
+// anyhow::Context::with_context(|| text): Ok stays Ok with the same value, Err becomes an anyhow error carrying the text
+pub trait Context<T> { fn with_context<F: FnOnce() -> &'static str>(self, f: F) -> Result<T, AnyhowError>; }
+impl<T, E> Context<T> for Result<T, E> {
+    #[verifier::external_body]
+    fn with_context<F: FnOnce() -> &'static str>(self, f: F) -> (r: Result<T, AnyhowError>)
+        ensures
+            self matches Ok(v) ==> r == Ok::<T, AnyhowError>(v),
+            self is Err ==> r is Err,
+    { unimplemented!() }
+}
+
+// ---- the SDK's QUIC client: stand-ins -------------------------------------------------------------------------------------------------------
+impl IggyError {
+    // the error-code table (sdk/src/error.rs, strum discriminants): uninterpreted here (its bijectivity is the Kani table check of C13)
+    pub uninterp spec fn from_code_spec(code: u32) -> IggyError;
+    #[verifier::external_body]
+    pub fn from_code(code: u32) -> (r: IggyError) ensures r == IggyError::from_code_spec(code) { unimplemented!() }
+}
+impl ByteSeq {
+    // Bytes::copy_from_slice: a copy of the slice
+    #[verifier::external_body]
+    pub fn copy_from_slice(s: &[u8]) -> (r: ByteSeq) ensures r@ == s@ { unimplemented!() }
+}
+// the response frame of the binary protocol:  status:u32 | length:u32 | body[length]     (status 0 = OK; an error response has no body)
+pub open spec fn resp_frame(status: u32, body: Seq<u8>) -> Seq<u8> { le32(status) + le32(body.len() as u32) + body }
